@@ -76,6 +76,18 @@ def roundtrip(ctx, tag, res):
         if a != b:
             ctx.violation("field_changed:%s" % f, {"test": tag, "before": repr(getattr(res, f))[:200], "after": repr(getattr(got, f))[:200],
                                                    "type_before": type(getattr(res, f)).__name__})
+    # mixed distributions such as ('poisson', rate): the numeric members must come back as the same numbers
+    try:
+        seq0 = list(res.test_distribution) if not isinstance(res.test_distribution, str) else []
+        seq1 = list(got.test_distribution) if not isinstance(got.test_distribution, str) else []
+    except TypeError:
+        seq0, seq1 = [], []
+    if numeric_list(res.test_distribution) is None and seq0:
+        for i, v in enumerate(seq0):
+            if isinstance(v, (int, float, numpy.integer, numpy.floating)) and not isinstance(v, bool):
+                if i >= len(seq1) or norm(seq1[i]) != norm(v):
+                    ctx.violation("field_changed:test_distribution_numeric_member", {"test": tag, "before": repr(v), "after": repr(seq1[i]) if i < len(seq1) else None})
+                    break
     a = numeric_list(res.test_distribution)
     if a is not None:
         b = numeric_list(got.test_distribution)
@@ -189,7 +201,8 @@ def nontrivial(case):
 @st.composite
 def cases(draw):
     if draw(st.integers(0, 3)) == 0:
-        rc = draw(lattice.lattices(max_n=8, flags=False))
+        # decimal spacings and spacings that are not short decimals (1/12, 1/3, 1/16 of a degree)
+        rc = draw(lattice.lattices(max_n=8, flags=False, spacings=lattice.SPACINGS + ["0.08333333333333333", "0.3333333333333333", "0.0625", "0.016666666666666666"]))
         return {"k": "region", "region": rc}
     setup = draw(G.setups(max_cells=10, max_mags=4, max_events=25, lo=-6, hi=2))
     n = len(setup["rates"])
